@@ -21,7 +21,7 @@ PROPS = {
         "level_text": "Each case builds one Future<value|reference|void> on ThreadPool / TaskSet / ConcurrentTaskSet / ImmediateInvoker / NewThreadInvoker / a harness ManualInvoker (async and deferred policies both ways, pools of 0..4 threads, workers optionally blocked so that waiter-inline and pool execution both occur), hands copies to 1..6 threads that run random sequences of get / wait / wait_for / wait_until / is_ready / copy / move / share / assign / destroy (optionally all released into get() at once), optionally drops the original handle, and checks: functor executed exactly once and never concurrently with itself; every get() returned the same address and the functor's value (or rethrew the functor's exception, never returned normally); wait()/get() imply is_ready(); result and functor destroyed exactly once. Held-on-what-was-run, not a proof.",
         "level_note": "The two-thread window between the status load and the CAS in run() has no hook point; it is reached by releasing up to 6 waiters simultaneously and by the case count. Lifetime errors inside SmallBufferAllocator blocks are only visible through the Tracked members and in the asan-nosba build.",
         "design_ref": "DESIGN.md §4 C18",
-        "sweep_args": {"n": 320},
+        "sweep_args": {"n": 120},
         "rule": "case = (schedulable, pool size, async, deferred, result kind, throws, waiter count, per-waiter op program, gate mode, perturbation) drawn from the seeded generator; non-trivial = at least two waiter threads and at least one get() executed; distinct by full spec",
         "required_classes": ["ran:waiter-inline", "ran:pool-worker", "ran:ctor-inline", "ran:new-thread", "ran:manual-runner",
                              "sched:pool", "sched:taskset", "sched:ctaskset", "sched:immediate", "sched:newthread", "sched:manual",
@@ -29,9 +29,9 @@ PROPS = {
                              "original-dropped", "not-deferred", "async", "pool0"],
         "assumptions": _A,
         "runs": {
-            "quick": [{"config": "plain", "shards": 16, "args": {"n": 2400}},
-                      {"config": "tsan", "shards": 16, "args": {"n": 240}},
-                      {"config": "asan-nosba", "shards": 16, "args": {"n": 480}}],
+            "quick": [{"config": "plain", "shards": 16, "args": {"n": 800}},
+                      {"config": "tsan", "shards": 8, "args": {"n": 80}},
+                      {"config": "asan-nosba", "shards": 8, "args": {"n": 160}}],
             "thorough": [{"config": "plain", "shards": 16, "seeds": 3},
                          {"config": "tsan", "shards": 16, "args": {"n": 8000}},
                          {"config": "asan-nosba", "shards": 16, "args": {"n": 12000}},
@@ -44,7 +44,7 @@ PROPS = {
         "level_text": "then(): programs of 1..50 continuations (chains, trees with fan-out <= 8, stars) hung off one root future (value / void / reference, any schedulable) and registered by 1..4 threads before, while and after the root completes, on ImmediateInvoker / ThreadPool / TaskSet / ConcurrentTaskSet / NewThreadInvoker with both policies; four scripted interleavings park a thread at the hook sites after the readiness test, after the chain push, after notify(kReady) and after the status CAS. Checked: every continuation ran exactly once, saw its antecedent ready and the antecedent's value/exception, its future became ready with the right value, nothing is left after teardown; a continuation that is never dispatched is a direct violation (ImmediateInvoker) or a watchdog hang. Combinators: when_all / when_any over iterator ranges (n = 0,1,2,3,5,8,20) and the variadic overloads (arities 0,1,2,3,5 with mixed value/void/reference futures, lvalue and rvalue arguments), plain / TaskSet / ConcurrentTaskSet variants, inputs complete before / after the call in a shuffled order, with pollers, early get() and a continuation on the result all probing 'result ready => inputs (named input) ready', order and identity of the when_all elements, index range of when_any, and 'taskSet.wait() returned => result ready' (also in bulk stress rounds).",
         "level_note": "Readiness probes sample the result first and the inputs afterwards; since readiness is monotone this can only miss, never invent, a violation. The window between the task-set counter decrement and the ready store has no hook point and is only reached by volume (stress rounds).",
         "design_ref": "DESIGN.md §4 C19",
-        "sweep_args": {"then": 160, "comb": 120, "var": 72, "stress": 8, "rounds": 40},
+        "sweep_args": {"then": 64, "comb": 48, "var": 32, "stress": 4, "rounds": 40},
         "rule": "case = one continuation program or one combinator call with its input sources/completion order (stress cases are blocks of rounds reporting _evals); non-trivial = at least one continuation (then), at least two inputs (combinators); distinct by full spec",
         "required_classes": ["reg:before-start", "reg:during-run", "reg:after-ready",
                              "reg:window-test-drain-push", "reg:window-push-drain-recheck", "reg:window-notify-register-drain", "reg:window-cas-register-finish",
@@ -57,9 +57,9 @@ PROPS = {
                              "inputs-complete-after-call", "inputs-complete-before-call", "input-throws", "rvalue-arguments", "stress:taskset-wait"],
         "assumptions": _A,
         "runs": {
-            "quick": [{"config": "plain", "shards": 16, "args": {"then": 1200, "comb": 800, "var": 400, "stress": 32, "rounds": 400}},
-                      {"config": "tsan", "shards": 16, "args": {"then": 128, "comb": 96, "var": 64, "stress": 8, "rounds": 40}},
-                      {"config": "asan-nosba", "shards": 16, "args": {"then": 240, "comb": 160, "var": 96, "stress": 8, "rounds": 80}}],
+            "quick": [{"config": "plain", "shards": 16, "args": {"then": 600, "comb": 400, "var": 200, "stress": 8, "rounds": 400}},
+                      {"config": "tsan", "shards": 8, "args": {"then": 48, "comb": 40, "var": 24, "stress": 4, "rounds": 40}},
+                      {"config": "asan-nosba", "shards": 8, "args": {"then": 64, "comb": 48, "var": 32, "stress": 4, "rounds": 80}}],
             "thorough": [{"config": "plain", "shards": 16, "seeds": 2},
                          {"config": "tsan", "shards": 16, "args": {"then": 5000, "comb": 3500, "var": 1500, "stress": 64, "rounds": 150}},
                          {"config": "asan-nosba", "shards": 16, "args": {"then": 6000, "comb": 4000, "var": 2000, "stress": 64, "rounds": 300}}],
@@ -71,7 +71,7 @@ PROPS = {
         "level_text": "CompletionEvent::waitFor/waitUntil and Future::wait_for/wait_until with timeouts 0, negative, 1 ns, sub-us, 1 us, sub-ms, 500 us, 5 ms, 50 ms, 1 h, 30 days (and seconds::max / hours::max / 1e30 s / time_point::max in the non-UBSan builds) in seven Rep/Period types and three time_point flavours (steady ns, system ns, steady ms): never notified, notified at timeout +- delta, notified early under a long timeout, status changed between the load and the futex call (gate), futures not started (deferred and not), running for shorter/longer than the timeout. Every 'true/ready' is followed by completed()/is_ready() (must be true) and, for events, by a check that notify() had been issued; every 'false/timeout' must have at least the requested time elapsed (2 ns slack for the timespec truncation; 1 ms for system_clock deadlines). Deferred clause: futures created by the constructor, by dispenso::async(schedulable, policy, ...) and by then() with every policy combination on blocked pools / task sets / NewThreadInvoker / ManualInvoker; the functor records whether it runs on a thread that is inside a timed wait.",
         "level_note": "Elapsed time measured outside the call over-estimates the time spent waiting, so an early timeout shorter than the call overhead (~1 us) cannot be seen; machine load can only hide, never produce, a finding.",
         "design_ref": "DESIGN.md §4 C20",
-        "sweep_args": {"n": 400},
+        "sweep_args": {"n": 240},
         "rule": "case = one scripted scenario (event or future) with 1..3 waiter threads, each with its own timeout value / representation / clock; non-trivial = every case (each performs at least one timed wait); distinct by full spec",
         "required_classes": ["script:event-timeout", "script:event-notify-race", "script:event-long-early-notify", "script:event-notify-before-futex",
                              "script:future-notstarted-nondeferred", "script:future-notstarted-deferred", "script:future-running",
@@ -84,9 +84,9 @@ PROPS = {
             "2 ns slack on steady-clock verdicts: the implementation passes the timeout to the kernel as a timespec (integral ns) computed through a double",
         ],
         "runs": {
-            "quick": [{"config": "plain", "shards": 16, "args": {"n": 3200}},
-                      {"config": "tsan", "shards": 16, "args": {"n": 320}},
-                      {"config": "asan-nosba", "shards": 16, "args": {"n": 480}}],
+            "quick": [{"config": "plain", "shards": 16, "args": {"n": 2000}},
+                      {"config": "tsan", "shards": 8, "args": {"n": 160}},
+                      {"config": "asan-nosba", "shards": 8, "args": {"n": 240}}],
             "thorough": [{"config": "plain", "shards": 16, "seeds": 3},
                          {"config": "tsan", "shards": 16, "args": {"n": 12000}},
                          {"config": "asan-nosba", "shards": 16, "args": {"n": 12000}},
